@@ -38,7 +38,7 @@ pub struct XCase {
     pub enc: XEnc,
 }
 
-fn extra_strategy() -> impl Strategy<Value = SstExtra> {
+pub fn extra_strategy() -> impl Strategy<Value = SstExtra> {
     prop_oneof![
         2 => Just(SstExtra::EmptySi),
         2 => Just(SstExtra::EmptyT),
@@ -165,6 +165,9 @@ fn run(ctx: &mut Ctx) {
     ctx.run("xls", n, || bin_case(40, 5), oracle_xls);
     let n = ctx.n(2500, 50_000);
     ctx.run("ods", n, ods_case, oracle_ods);
+    // shared-string indices beyond 16 bits (66k-entry tables): a few cases per run
+    let n = ctx.n(2, 60);
+    ctx.run("bigtable", n, big_table, oracle_big);
     if !ctx.quick() {
         ctx.run("xlsb-long", 1500, || bin_case(32_767, 4), oracle_xlsb);
         ctx.run("xls-long", 1500, || bin_case(4000, 5), oracle_xls);
@@ -180,6 +183,7 @@ fn replay(sub: &str, case: &serde_json::Value) -> Option<Report> {
         "xlsb" | "xlsb-long" => replay_as::<BinCase>(case, oracle_xlsb),
         "xls" | "xls-long" => replay_as::<BinCase>(case, oracle_xls),
         "ods" => replay_as::<OdsCase>(case, oracle_ods),
+        "bigtable" => replay_as::<BigTable>(case, oracle_big),
         _ => None,
     }
 }
@@ -279,6 +283,52 @@ fn oracle_xls(case: &BinCase) -> Report {
     let doc = b8::XlsDoc { sheets: vec![b8::BSheet { name: "T".into(), cells, dimensions: 1, ..Default::default() }], sst, xfs: vec![0], codepage: Some(1200), ..Default::default() };
     crate::props::c02::read_and_check(&doc, "xls", &mut rep);
     rep.nontrivial = nt;
+    rep
+}
+
+/// a shared-string table with more than 65536 entries: indices need more than 16 bits
+#[derive(Debug, Clone, Serialize, Deserialize)]
+pub struct BigTable {
+    /// 0 xlsx, 1 xlsb, 2 xls
+    pub fmt: u8,
+    pub n: u32,
+    pub probes: Vec<u32>,
+}
+
+pub fn big_table() -> impl Strategy<Value = BigTable> {
+    (0u8..3, 65_537u32..66_500, proptest::collection::vec(any::<u32>(), 1..6)).prop_map(|(fmt, n, ps)| {
+        let mut probes = vec![65_535, 65_536, n - 1, 0, 255, 256];
+        probes.extend(ps.into_iter().map(|p| p % n));
+        BigTable { fmt, n, probes }
+    })
+}
+
+pub fn oracle_big(case: &BigTable) -> Report {
+    let mut rep = Report::new();
+    let text = |i: u32| format!("s{i}");
+    rep.label(["bigtable:xlsx", "bigtable:xlsb", "bigtable:xls"][case.fmt as usize % 3]);
+    match case.fmt % 3 {
+        0 => {
+            // xlsx: one cell per table item, in table order (row i refers to item i, written without
+            // de-duplication), so every index up to n-1 is used by a cell
+            let rows = (0..case.n).map(|i| XRow { r: i, explicit: true, attrs: false, cells: vec![XCell { col: 0, explicit: true, style: None, value: XVal::Shared(XText::plain(&text(i))), formula: None }] }).collect();
+            let doc = XlsxDoc { sheets: vec![XSheet { name: "T".into(), rows, dimension: XDim::Absent, ..Default::default() }], sst: SstKnobs { prepend: vec![], interleave: None, dedupe: false, counts: true }, ..Default::default() };
+            read_and_check(&doc, "xlsx-bigtable", &mut rep);
+        }
+        1 => {
+            let sst: Vec<bb::BbSstItem> = (0..case.n).map(|i| bb::BbSstItem { text: text(i), runs: 0, phonetic: None }).collect();
+            let rows = case.probes.iter().enumerate().map(|(k, p)| bb::BbRow { r: k as u32, before: vec![], cells: vec![bb::BbCell { col: 0, style: 0, rec: bb::BbRec::Isst(*p) }] }).collect();
+            let doc = bb::XlsbDoc { sheets: vec![bb::BbSheet { name: "T".into(), rows, ..Default::default() }], sst, ..Default::default() };
+            crate::props::c03::read_and_check(&doc, "xlsb-bigtable", &mut rep);
+        }
+        _ => {
+            let sst: Vec<b8::SstString> = (0..case.n).map(|i| b8::SstString::plain(&text(i))).collect();
+            let cells = case.probes.iter().enumerate().map(|(k, p)| b8::BCell { row: k as u16, col: 0, ixfe: 0, rec: b8::BRec::LabelSst(*p) }).collect();
+            let doc = b8::XlsDoc { sheets: vec![b8::BSheet { name: "T".into(), cells, dimensions: 1, ..Default::default() }], sst, xfs: vec![0], codepage: Some(1200), ..Default::default() };
+            crate::props::c02::read_and_check(&doc, "xls-bigtable", &mut rep);
+        }
+    }
+    rep.nontrivial = true;
     rep
 }
 
